@@ -257,8 +257,8 @@ Definition func_variant_ok (tbl : list api_row) (r : api_row) : bool :=
         end
       else if builds_token yr || builds_token r then
         match token_shape yr, token_shape r, r_params yr, r_params r with
-        | Some (ty, EVar v), Some (tr, ECallParam f []), [pv], [pf] =>
-            simple_eqb ty tr && str_eqb (p_name pv) v && str_eqb (p_name pf) f && is_plain pv && is_func pf
+        | Some (EConst c1, EVar v), Some (EConst c2, ECallParam f []), [pv], [pf] =>
+            str_eqb c1 c2 && str_eqb (p_name pv) v && str_eqb (p_name pf) f && is_plain pv && is_func pf
         | _, _, _, _ => false
         end
       else false
@@ -279,10 +279,15 @@ Definition has_func_variant (tbl : list api_row) (r : api_row) : bool :=
 
 Definition same_params (a b : api_row) : bool := list_eqb param_eqb (r_params a) (r_params b).
 
+(* does the body (re)define the local [x]? *)
+Definition defines_b (x : str) (l : list stmt) : bool :=
+  existsb (fun s => match s with SDefine y _ => str_eqb x y | _ => false end) l.
+
 Definition construct_ok (tbl : list api_row) (r : api_row) : bool :=
   let l := body_stmts r in
   Nat.eqb (api_calls l) 0 &&
   returns_last l &&
+  negb (defines_b (r_self r) l) &&
   Nat.eqb (cb_sites l) (length (filter is_func (r_params r))) &&
   forallb (fun p => if is_func p then Nat.eqb (calls_of (p_name p) l) 1 && Nat.eqb (uses_of (p_name p) l) 0 else true) (r_params r) &&
   match find_row tbl [] (r_name r) with
@@ -681,5 +686,18 @@ Fixpoint snap (fuel : nat) (h : store) (v : value) : tree :=
     | VStmt p => match nth_error (st_stmts h) p with Some its => TStmt (map (snap n h) its) | None => TLeaf v end
     | VGroup p => match nth_error (st_groups h) p with Some g => TGroup (g_fields g) (map (snap n h) (g_items g)) | None => TLeaf v end
     | _ => TLeaf v
+    end
+  end.
+
+(* [avoids n h g v]: no *Group cell [g] within depth [n] of [v] *)
+Fixpoint avoids (fuel : nat) (h : store) (g : nat) (v : value) : bool :=
+  match fuel with
+  | O => true
+  | Datatypes.S n =>
+    match v with
+    | VStmt p => match nth_error (st_stmts h) p with Some its => forallb (avoids n h g) its | None => true end
+    | VGroup p => negb (Nat.eqb p g) &&
+                  match nth_error (st_groups h) p with Some gr => forallb (avoids n h g) (g_items gr) | None => true end
+    | _ => true
     end
   end.
